@@ -17,9 +17,11 @@ REGISTRY = {
     "C01": "objectstore",
     "C03": "treecanon",
     "C04": "objectstore",
+    "C05": "checkoutobj",
     "C06": "objectstore",
     "C07": "objectstore",
     "C08": "indexdiff",
+    "C10": "checkoutobj",
     "C11": "objectstore",
     "C12": "objectstore",
 }
